@@ -2,6 +2,9 @@ package checks
 
 import (
 	"fmt"
+	"math/rand"
+
+	"verif/harness/graph"
 
 	"verif/harness/vk"
 )
@@ -139,7 +142,7 @@ func lastIntake(o *hubObs) string {
 
 // ---- C03: the verdict is exactly what the mode promises --------------------------------------------
 func predC03(c *vk.Ctx, o *hubObs) {
-	if o.Op[0] != "handshake" || !realDecided(o.Verdict) {
+	if (o.Op[0] != "handshake" && o.Op[0] != "handshake-nochain") || !realDecided(o.Verdict) {
 		return
 	}
 	expRej := o.Exp.Verdict != "accept"
@@ -153,6 +156,63 @@ func predC03(c *vk.Ctx, o *hubObs) {
 	if !o.Cfg.CrlOn() && (o.Fetched["D"] > 0 || o.Fetched["U"] > 0) {
 		c.Violation(fmt.Sprintf("mode=%s:touches-crl-origin", o.Cfg.Mode), "a mode that does not enable CRL checking fetched a CRL", hubReplay(o))
 	}
+	if !o.Cfg.CrlOn() && o.WorkDirEntries > 0 {
+		c.Violation(fmt.Sprintf("mode=%s:touches-work-dir", o.Cfg.Mode), "a mode that does not enable CRL checking created files in work_dir", hubReplay(o))
+	}
+	if !o.Cfg.OcspOn() && o.OcspHits > 0 {
+		c.Violation(fmt.Sprintf("mode=%s:contacts-ocsp-responder", o.Cfg.Mode), "a mode that does not enable OCSP contacted the responder", hubReplay(o))
+	}
+}
+
+// C03 — mode composition: the complete one-handshake table.
+func C03(c *vk.Ctx) {
+	var cfgs []HubCfg
+	for _, mode := range []string{"unset", "prefer_ocsp", "prefer_crl", "ocsp_only", "crl_only", "disabled"} {
+		for _, oc := range []string{"noaia", "good", "revoked", "down"} {
+			for _, aia := range []bool{false, true} {
+				for _, strict := range []bool{false, true} {
+					for _, disk := range []bool{false, true} {
+						cfgs = append(cfgs, HubCfg{Mode: mode, Sig: "verify", Strict: strict, Fetch: "actively", Disk: disk, Conf: "none", Ocsp: oc, Aia: aia})
+					}
+				}
+			}
+		}
+	}
+	gs, res := exportHubGraphs(c, cfgs, nil, 2)
+	c.Set("states", res.Distinct)
+	rng := rand.New(rand.NewSource(c.Seed))
+	var trans int64
+	walks := 0
+	for ci, g := range gs {
+		trans += int64(len(g.Edges))
+		cfg := cfgs[ci]
+		// quick: memory backend fully + a seeded third of the disk cells; thorough: everything
+		if !c.Thorough() && cfg.Disk && rng.Intn(3) != 0 {
+			continue
+		}
+		keepDown := 0
+		if c.Thorough() || rng.Intn(24) == 0 {
+			keepDown = 1
+		}
+		pg := pruneDown(g, keepDown, rng)
+		pg.AllPaths(2, func(p []*graph.Edge) {
+			if len(p) != 2 || c.Violations() > 6 {
+				return
+			}
+			cp := append([]*graph.Edge(nil), p...)
+			runHubWalk(c, cfg, cp, RandomShape(rng), c.Seed*100000+int64(walks), predC03)
+			walks++
+		})
+		if ci%40 == 0 {
+			c.Sample(map[string]any{"cfg": cfg, "cells": len(pg.Edges)})
+		}
+	}
+	c.Set("transitions", trans)
+	c.Set("traces_validated_against_impl", int64(walks))
+	c.Set("exhaustive", c.Thorough())
+	c.Set("spec", "Revocation.tla with CfgSpace = the whole table mode(6) x OCSP outcome(4) x aia_strict(2) x cdp_strict(2) x backend(2), MaxSteps = 2 (Provision; one handshake with every certificate and every document the CDP may serve, plus the chain-less handshake); property ModePromise")
+	c.Set("rule", "a case is one cell: (configuration, certificate, CRL outcome via the served document) executed on a fresh validator; equality of accept/reject with the specification's verdict (the property is an iff), plus touch sets: modes without CRL never fetch a CRL nor create anything in work_dir, modes without OCSP never contact the responder; chain shapes (leaf+root, leaf+intermediate+root, two chains, no chain) rotate by seed")
+	c.Assume("unset mode is rendered by omitting the option; 'unreachable CDP' is mostly a garbage body (fast) and a connection hang-up in a seeded sample of cells (2 s retry loop each)")
 }
 
 func cfgsC01(c *vk.Ctx) []HubCfg {
